@@ -814,6 +814,7 @@ package analysis
 //@   ensures forall k in dom(s.patterns.parameters) :: (old(k in dom(s.patterns.parameters)) && s.patterns.parameters[k] == old(s.patterns.parameters[k])) || (k == pkey(prefix, i) && param.Pattern != "" && s.patterns.parameters[k] == param.Pattern)
 //@   ensures forall k string :: old(k in dom(s.patterns.parameters)) ==> k in dom(s.patterns.parameters)
 //@   ensures forall k string :: old(k in dom(s.patterns.allPatterns)) ==> k in dom(s.patterns.allPatterns)
+//@   ensures (forall k string :: old(k in dom(s.patterns.items)) ==> k in dom(s.patterns.items)) && (forall k string :: old(k in dom(s.patterns.schemas)) ==> k in dom(s.patterns.schemas))
 //@   ensures forall k string :: forall p string :: itPat(k, p, param.Items, path.Join(prefix, "parameters", strconv.Itoa(i)), "items") ==> k in dom(s.patterns.items) && k in dom(s.patterns.allPatterns)
 
 // a response (default or status code) registers the Pats of its headers under <response pointer>/headers/<name>
@@ -827,6 +828,8 @@ package analysis
 //@   ensures forall k in dom(s.patterns.headers) :: (old(k in dom(s.patterns.headers)) && s.patterns.headers[k] == old(s.patterns.headers[k])) || hdrPat(k, s.patterns.headers[k], *res, path.Join(prefix, "responses", "default"))
 //@   ensures forall k string :: old(k in dom(s.patterns.headers)) ==> k in dom(s.patterns.headers)
 //@   ensures forall k string :: old(k in dom(s.patterns.allPatterns)) ==> k in dom(s.patterns.allPatterns)
+//@   ensures (forall k string :: old(k in dom(s.patterns.items)) ==> k in dom(s.patterns.items)) && (forall k string :: old(k in dom(s.patterns.schemas)) ==> k in dom(s.patterns.schemas))
+//@   loop 1: invariant (forall k string :: old(k in dom(s.patterns.items)) ==> k in dom(s.patterns.items)) && (forall k string :: old(k in dom(s.patterns.schemas)) ==> k in dom(s.patterns.schemas))
 //@   loop 1: invariant forall h in seen :: res.Headers[h].Pattern != "" ==> hkey(path.Join(prefix, "responses", "default"), h) in dom(s.patterns.headers) && hkey(path.Join(prefix, "responses", "default"), h) in dom(s.patterns.allPatterns)
 //@   loop 1: invariant forall k in dom(s.patterns.headers) :: (old(k in dom(s.patterns.headers)) && s.patterns.headers[k] == old(s.patterns.headers[k])) || hdrPat(k, s.patterns.headers[k], *res, path.Join(prefix, "responses", "default"))
 //@   loop 1: invariant forall k string :: old(k in dom(s.patterns.headers)) ==> k in dom(s.patterns.headers)
@@ -840,20 +843,12 @@ package analysis
 //@   ensures forall kk in dom(s.patterns.headers) :: (old(kk in dom(s.patterns.headers)) && s.patterns.headers[kk] == old(s.patterns.headers[kk])) || hdrPat(kk, s.patterns.headers[kk], res, path.Join(prefix, "responses", strconv.Itoa(k)))
 //@   ensures forall kk string :: old(kk in dom(s.patterns.headers)) ==> kk in dom(s.patterns.headers)
 //@   ensures forall kk string :: old(kk in dom(s.patterns.allPatterns)) ==> kk in dom(s.patterns.allPatterns)
+//@   ensures (forall kk string :: old(kk in dom(s.patterns.items)) ==> kk in dom(s.patterns.items)) && (forall kk string :: old(kk in dom(s.patterns.schemas)) ==> kk in dom(s.patterns.schemas))
+//@   loop 1: invariant (forall kk string :: old(kk in dom(s.patterns.items)) ==> kk in dom(s.patterns.items)) && (forall kk string :: old(kk in dom(s.patterns.schemas)) ==> kk in dom(s.patterns.schemas))
 //@   loop 1: invariant forall h in seen :: res.Headers[h].Pattern != "" ==> hkey(path.Join(prefix, "responses", strconv.Itoa(k)), h) in dom(s.patterns.headers) && hkey(path.Join(prefix, "responses", strconv.Itoa(k)), h) in dom(s.patterns.allPatterns)
 //@   loop 1: invariant forall kk in dom(s.patterns.headers) :: (old(kk in dom(s.patterns.headers)) && s.patterns.headers[kk] == old(s.patterns.headers[kk])) || hdrPat(kk, s.patterns.headers[kk], res, path.Join(prefix, "responses", strconv.Itoa(k)))
 //@   loop 1: invariant forall kk string :: old(kk in dom(s.patterns.headers)) ==> kk in dom(s.patterns.headers)
 //@   loop 1: invariant forall kk string :: old(kk in dom(s.patterns.allPatterns)) ==> kk in dom(s.patterns.allPatterns)
-
-// path-level parameters (analyzeOperations) and shared parameters / shared response headers (initialize)
-//@ func (s *Spec) analyzeOperations(path, pi)
-//@   aspect patterns
-//@   requires s != nil && pi != nil && idxMaps(s) && (forall mth in dom(s.operations) :: s.operations[mth] != nil)
-//@   modifies heaps INDEX, heap spec.Parameter
-//@   ensures idxMaps(s) && s.spec == old(s.spec) && s.patterns.parameters == old(s.patterns.parameters) && s.patterns.headers == old(s.patterns.headers) && s.patterns.schemas == old(s.patterns.schemas) && s.patterns.allPatterns == old(s.patterns.allPatterns)
-//@   ensures forall i in 0..len(pi.Parameters) :: pi.Parameters[i].Pattern != "" ==> ("#" + slashpath.Join("/paths", jsonpointer.Escape(path), "parameters", strconv.Itoa(i))) in dom(s.patterns.parameters) && ("#" + slashpath.Join("/paths", jsonpointer.Escape(path), "parameters", strconv.Itoa(i))) in dom(s.patterns.allPatterns)
-//@   loop 1: invariant s != nil && idxMaps(s) && s.spec == old(s.spec) && s.patterns.parameters == old(s.patterns.parameters) && s.patterns.headers == old(s.patterns.headers) && s.patterns.schemas == old(s.patterns.schemas) && s.patterns.allPatterns == old(s.patterns.allPatterns)
-//@   loop 1: invariant forall j in 0..idx :: op.Parameters[j].Pattern != "" ==> ("#" + slashpath.Join("/paths", jsonpointer.Escape(path), "parameters", strconv.Itoa(j))) in dom(s.patterns.parameters) && ("#" + slashpath.Join("/paths", jsonpointer.Escape(path), "parameters", strconv.Itoa(j))) in dom(s.patterns.allPatterns)
 
 // the items chain under an owner: every (key, Enum) pair it declares
 //@ fun itEnum(k string, p []any, items *spec.Items, prefix string, name string) bool = items != nil && ((k == "#" + path.Join(prefix, name) && p == items.Enum && len(p) > 0) || itEnum(k, p, items.Items, path.Join(prefix, name), name))
@@ -904,6 +899,7 @@ package analysis
 //@   ensures forall k in dom(s.enums.parameters) :: (old(k in dom(s.enums.parameters)) && s.enums.parameters[k] == old(s.enums.parameters[k])) || (k == pkey(prefix, i) && len(param.Enum) > 0 && s.enums.parameters[k] == param.Enum)
 //@   ensures forall k string :: old(k in dom(s.enums.parameters)) ==> k in dom(s.enums.parameters)
 //@   ensures forall k string :: old(k in dom(s.enums.allEnums)) ==> k in dom(s.enums.allEnums)
+//@   ensures (forall k string :: old(k in dom(s.enums.items)) ==> k in dom(s.enums.items)) && (forall k string :: old(k in dom(s.enums.schemas)) ==> k in dom(s.enums.schemas))
 //@   ensures forall k string :: forall p []any :: itEnum(k, p, param.Items, path.Join(prefix, "parameters", strconv.Itoa(i)), "items") ==> k in dom(s.enums.items) && k in dom(s.enums.allEnums)
 
 // a response (default or status code) registers the Enums of its headers under <response pointer>/headers/<name>
@@ -917,6 +913,8 @@ package analysis
 //@   ensures forall k in dom(s.enums.headers) :: (old(k in dom(s.enums.headers)) && s.enums.headers[k] == old(s.enums.headers[k])) || hdrEnum(k, s.enums.headers[k], *res, path.Join(prefix, "responses", "default"))
 //@   ensures forall k string :: old(k in dom(s.enums.headers)) ==> k in dom(s.enums.headers)
 //@   ensures forall k string :: old(k in dom(s.enums.allEnums)) ==> k in dom(s.enums.allEnums)
+//@   ensures (forall k string :: old(k in dom(s.enums.items)) ==> k in dom(s.enums.items)) && (forall k string :: old(k in dom(s.enums.schemas)) ==> k in dom(s.enums.schemas))
+//@   loop 1: invariant (forall k string :: old(k in dom(s.enums.items)) ==> k in dom(s.enums.items)) && (forall k string :: old(k in dom(s.enums.schemas)) ==> k in dom(s.enums.schemas))
 //@   loop 1: invariant forall h in seen :: len(res.Headers[h].Enum) > 0 ==> hkey(path.Join(prefix, "responses", "default"), h) in dom(s.enums.headers) && hkey(path.Join(prefix, "responses", "default"), h) in dom(s.enums.allEnums)
 //@   loop 1: invariant forall k in dom(s.enums.headers) :: (old(k in dom(s.enums.headers)) && s.enums.headers[k] == old(s.enums.headers[k])) || hdrEnum(k, s.enums.headers[k], *res, path.Join(prefix, "responses", "default"))
 //@   loop 1: invariant forall k string :: old(k in dom(s.enums.headers)) ==> k in dom(s.enums.headers)
@@ -930,20 +928,161 @@ package analysis
 //@   ensures forall kk in dom(s.enums.headers) :: (old(kk in dom(s.enums.headers)) && s.enums.headers[kk] == old(s.enums.headers[kk])) || hdrEnum(kk, s.enums.headers[kk], res, path.Join(prefix, "responses", strconv.Itoa(k)))
 //@   ensures forall kk string :: old(kk in dom(s.enums.headers)) ==> kk in dom(s.enums.headers)
 //@   ensures forall kk string :: old(kk in dom(s.enums.allEnums)) ==> kk in dom(s.enums.allEnums)
+//@   ensures (forall kk string :: old(kk in dom(s.enums.items)) ==> kk in dom(s.enums.items)) && (forall kk string :: old(kk in dom(s.enums.schemas)) ==> kk in dom(s.enums.schemas))
+//@   loop 1: invariant (forall kk string :: old(kk in dom(s.enums.items)) ==> kk in dom(s.enums.items)) && (forall kk string :: old(kk in dom(s.enums.schemas)) ==> kk in dom(s.enums.schemas))
 //@   loop 1: invariant forall h in seen :: len(res.Headers[h].Enum) > 0 ==> hkey(path.Join(prefix, "responses", strconv.Itoa(k)), h) in dom(s.enums.headers) && hkey(path.Join(prefix, "responses", strconv.Itoa(k)), h) in dom(s.enums.allEnums)
 //@   loop 1: invariant forall kk in dom(s.enums.headers) :: (old(kk in dom(s.enums.headers)) && s.enums.headers[kk] == old(s.enums.headers[kk])) || hdrEnum(kk, s.enums.headers[kk], res, path.Join(prefix, "responses", strconv.Itoa(k)))
 //@   loop 1: invariant forall kk string :: old(kk in dom(s.enums.headers)) ==> kk in dom(s.enums.headers)
 //@   loop 1: invariant forall kk string :: old(kk in dom(s.enums.allEnums)) ==> kk in dom(s.enums.allEnums)
 
-// path-level parameters (analyzeOperations) and shared parameters / shared response headers (initialize)
+// BEGIN pe-doc (generated by /verif/tools/gen_pe_doc.py)
+//@ func (s *Spec) analyzeOperation(method, path, op)
+//@   aspect patterns
+//@   requires s != nil && idxMaps(s) && opsWF(s)
+//@   modifies map s.operations, heap map[string]*spec.Operation, map s.consumes, map s.produces, map s.authSchemes, map s.allSchemas, map s.allOfs, map s.references.schemas, map s.references.responses, map s.references.parameters, map s.references.items, map s.references.headerItems, map s.references.parameterItems, map s.references.allRefs, map s.references.pathItems, map s.patterns.parameters, map s.patterns.headers, map s.patterns.items, map s.patterns.schemas, map s.patterns.allPatterns, map s.enums.parameters, map s.enums.headers, map s.enums.items, map s.enums.schemas, map s.enums.allEnums
+//@   ensures opsWF(s)
+//@   ensures (forall k string :: old(k in dom(s.patterns.parameters)) ==> k in dom(s.patterns.parameters)) && (forall k string :: old(k in dom(s.patterns.headers)) ==> k in dom(s.patterns.headers)) && (forall k string :: old(k in dom(s.patterns.items)) ==> k in dom(s.patterns.items)) && (forall k string :: old(k in dom(s.patterns.schemas)) ==> k in dom(s.patterns.schemas)) && (forall k string :: old(k in dom(s.patterns.allPatterns)) ==> k in dom(s.patterns.allPatterns))
+//@   ensures op != nil ==> forall i in 0..len(op.Parameters) :: op.Parameters[i].Pattern != "" ==> pkey(slashpath.Join("/paths", jsonpointer.Escape(path), strings.ToLower(method)), i) in dom(s.patterns.parameters) && pkey(slashpath.Join("/paths", jsonpointer.Escape(path), strings.ToLower(method)), i) in dom(s.patterns.allPatterns)
+//@   loop 1: modifies map s.consumes
+//@   loop 2: modifies map s.produces
+//@   loop 3: modifies map s.authSchemes
+//@   loop 4: modifies map s.authSchemes
+//@   loop 5: modifies heap spec.Parameter, map s.allSchemas, map s.allOfs, map s.references.schemas, map s.references.responses, map s.references.parameters, map s.references.items, map s.references.headerItems, map s.references.parameterItems, map s.references.allRefs, map s.patterns.parameters, map s.patterns.headers, map s.patterns.items, map s.patterns.schemas, map s.patterns.allPatterns, map s.enums.parameters, map s.enums.headers, map s.enums.items, map s.enums.schemas, map s.enums.allEnums
+//@   loop 6: modifies heap spec.Response, map s.allSchemas, map s.allOfs, map s.references.schemas, map s.references.responses, map s.references.parameters, map s.references.items, map s.references.headerItems, map s.references.parameterItems, map s.references.allRefs, map s.patterns.parameters, map s.patterns.headers, map s.patterns.items, map s.patterns.schemas, map s.patterns.allPatterns, map s.enums.parameters, map s.enums.headers, map s.enums.items, map s.enums.schemas, map s.enums.allEnums
+//@   loop 5: invariant opsWF(s) && (forall k string :: old(k in dom(s.patterns.parameters)) ==> k in dom(s.patterns.parameters)) && (forall k string :: old(k in dom(s.patterns.headers)) ==> k in dom(s.patterns.headers)) && (forall k string :: old(k in dom(s.patterns.items)) ==> k in dom(s.patterns.items)) && (forall k string :: old(k in dom(s.patterns.schemas)) ==> k in dom(s.patterns.schemas)) && (forall k string :: old(k in dom(s.patterns.allPatterns)) ==> k in dom(s.patterns.allPatterns))
+//@   loop 5: invariant forall j in 0..idx :: op.Parameters[j].Pattern != "" ==> pkey(prefix, j) in dom(s.patterns.parameters) && pkey(prefix, j) in dom(s.patterns.allPatterns)
+//@   loop 6: invariant opsWF(s) && (forall k string :: old(k in dom(s.patterns.parameters)) ==> k in dom(s.patterns.parameters)) && (forall k string :: old(k in dom(s.patterns.headers)) ==> k in dom(s.patterns.headers)) && (forall k string :: old(k in dom(s.patterns.items)) ==> k in dom(s.patterns.items)) && (forall k string :: old(k in dom(s.patterns.schemas)) ==> k in dom(s.patterns.schemas)) && (forall k string :: old(k in dom(s.patterns.allPatterns)) ==> k in dom(s.patterns.allPatterns))
+//@   loop 6: invariant forall j in 0..len(op.Parameters) :: op.Parameters[j].Pattern != "" ==> pkey(prefix, j) in dom(s.patterns.parameters) && pkey(prefix, j) in dom(s.patterns.allPatterns)
+
+// path-level parameters (analyzeOperations); shared parameters, shared response headers and definitions (initialize)
+//@ func (s *Spec) analyzeOperations(path, pi)
+//@   aspect patterns
+//@   requires s != nil && pi != nil && idxMaps(s) && opsWF(s)
+//@   modifies heap spec.Parameter, map s.operations, heap map[string]*spec.Operation, map s.consumes, map s.produces, map s.authSchemes, map s.allSchemas, map s.allOfs, map s.references.schemas, map s.references.responses, map s.references.parameters, map s.references.items, map s.references.headerItems, map s.references.parameterItems, map s.references.allRefs, map s.references.pathItems, map s.patterns.parameters, map s.patterns.headers, map s.patterns.items, map s.patterns.schemas, map s.patterns.allPatterns, map s.enums.parameters, map s.enums.headers, map s.enums.items, map s.enums.schemas, map s.enums.allEnums
+//@   ensures opsWF(s)
+//@   ensures (forall k string :: old(k in dom(s.patterns.parameters)) ==> k in dom(s.patterns.parameters)) && (forall k string :: old(k in dom(s.patterns.headers)) ==> k in dom(s.patterns.headers)) && (forall k string :: old(k in dom(s.patterns.items)) ==> k in dom(s.patterns.items)) && (forall k string :: old(k in dom(s.patterns.schemas)) ==> k in dom(s.patterns.schemas)) && (forall k string :: old(k in dom(s.patterns.allPatterns)) ==> k in dom(s.patterns.allPatterns))
+//@   ensures forall i in 0..len(pi.Parameters) :: pi.Parameters[i].Pattern != "" ==> ("#" + slashpath.Join("/paths", jsonpointer.Escape(path), "parameters", strconv.Itoa(i))) in dom(s.patterns.parameters) && ("#" + slashpath.Join("/paths", jsonpointer.Escape(path), "parameters", strconv.Itoa(i))) in dom(s.patterns.allPatterns)
+//@   loop 1: modifies heap spec.Parameter, map s.allSchemas, map s.allOfs, map s.references.schemas, map s.references.responses, map s.references.parameters, map s.references.items, map s.references.headerItems, map s.references.parameterItems, map s.references.allRefs, map s.patterns.parameters, map s.patterns.headers, map s.patterns.items, map s.patterns.schemas, map s.patterns.allPatterns, map s.enums.parameters, map s.enums.headers, map s.enums.items, map s.enums.schemas, map s.enums.allEnums
+//@   loop 1: invariant opsWF(s) && (forall k string :: old(k in dom(s.patterns.parameters)) ==> k in dom(s.patterns.parameters)) && (forall k string :: old(k in dom(s.patterns.headers)) ==> k in dom(s.patterns.headers)) && (forall k string :: old(k in dom(s.patterns.items)) ==> k in dom(s.patterns.items)) && (forall k string :: old(k in dom(s.patterns.schemas)) ==> k in dom(s.patterns.schemas)) && (forall k string :: old(k in dom(s.patterns.allPatterns)) ==> k in dom(s.patterns.allPatterns))
+//@   loop 1: invariant forall j in 0..idx :: op.Parameters[j].Pattern != "" ==> ("#" + slashpath.Join("/paths", jsonpointer.Escape(path), "parameters", strconv.Itoa(j))) in dom(s.patterns.parameters) && ("#" + slashpath.Join("/paths", jsonpointer.Escape(path), "parameters", strconv.Itoa(j))) in dom(s.patterns.allPatterns)
+
+//@ func (s *Spec) initialize()
+//@   aspect patterns
+//@   requires s != nil && s.spec != nil && idxMaps(s) && opsWF(s)
+//@   modifies heap spec.Parameter, heap spec.PathItem, map s.operations, heap map[string]*spec.Operation, map s.consumes, map s.produces, map s.authSchemes, map s.allSchemas, map s.allOfs, map s.references.schemas, map s.references.responses, map s.references.parameters, map s.references.items, map s.references.headerItems, map s.references.parameterItems, map s.references.allRefs, map s.references.pathItems, map s.patterns.parameters, map s.patterns.headers, map s.patterns.items, map s.patterns.schemas, map s.patterns.allPatterns, map s.enums.parameters, map s.enums.headers, map s.enums.items, map s.enums.schemas, map s.enums.allEnums
+//@   ensures forall p in dom(docPaths(s)) :: forall i in 0..len(docPaths(s)[p].Parameters) :: docPaths(s)[p].Parameters[i].Pattern != "" ==> ("#" + slashpath.Join("/paths", jsonpointer.Escape(p), "parameters", strconv.Itoa(i))) in dom(s.patterns.parameters) && ("#" + slashpath.Join("/paths", jsonpointer.Escape(p), "parameters", strconv.Itoa(i))) in dom(s.patterns.allPatterns)
+//@   ensures forall n in dom(s.spec.Parameters) :: s.spec.Parameters[n].Pattern != "" ==> ("#" + slashpath.Join("/parameters", jsonpointer.Escape(n))) in dom(s.patterns.parameters) && ("#" + slashpath.Join("/parameters", jsonpointer.Escape(n))) in dom(s.patterns.allPatterns)
+//@   ensures forall n in dom(s.spec.Parameters) :: forall k string :: forall p string :: itPat(k, p, s.spec.Parameters[n].Items, slashpath.Join("/parameters", jsonpointer.Escape(n)), "items") ==> k in dom(s.patterns.items) && k in dom(s.patterns.allPatterns)
+//@   ensures forall n in dom(s.spec.Responses) :: forall h in dom(s.spec.Responses[n].Headers) :: s.spec.Responses[n].Headers[h].Pattern != "" ==> hkey(slashpath.Join("/responses", jsonpointer.Escape(n)), h) in dom(s.patterns.headers) && hkey(slashpath.Join("/responses", jsonpointer.Escape(n)), h) in dom(s.patterns.allPatterns)
+//@   ensures forall n in dom(s.spec.Definitions) :: s.spec.Definitions[n].Pattern != "" ==> ("#" + path.Join("/definitions", jsonpointer.Escape(n))) in dom(s.patterns.schemas) && ("#" + path.Join("/definitions", jsonpointer.Escape(n))) in dom(s.patterns.allPatterns)
+//@   loop 1: modifies map s.consumes
+//@   loop 2: modifies map s.produces
+//@   loop 3: modifies map s.authSchemes
+//@   loop 4: modifies map s.authSchemes
+//@   loop 5: modifies heap spec.Parameter, heap spec.PathItem, map s.operations, heap map[string]*spec.Operation, map s.consumes, map s.produces, map s.authSchemes, map s.allSchemas, map s.allOfs, map s.references.schemas, map s.references.responses, map s.references.parameters, map s.references.items, map s.references.headerItems, map s.references.parameterItems, map s.references.allRefs, map s.references.pathItems, map s.patterns.parameters, map s.patterns.headers, map s.patterns.items, map s.patterns.schemas, map s.patterns.allPatterns, map s.enums.parameters, map s.enums.headers, map s.enums.items, map s.enums.schemas, map s.enums.allEnums
+//@   loop 6: modifies map s.allSchemas, map s.allOfs, map s.references.schemas, map s.references.responses, map s.references.parameters, map s.references.items, map s.references.headerItems, map s.references.parameterItems, map s.references.allRefs, map s.references.pathItems, map s.patterns.parameters, map s.patterns.headers, map s.patterns.items, map s.patterns.schemas, map s.patterns.allPatterns, map s.enums.parameters, map s.enums.headers, map s.enums.items, map s.enums.schemas, map s.enums.allEnums
+//@   loop 7: modifies map s.allSchemas, map s.allOfs, map s.references.schemas, map s.references.responses, map s.references.parameters, map s.references.items, map s.references.headerItems, map s.references.parameterItems, map s.references.allRefs, map s.references.pathItems, map s.patterns.parameters, map s.patterns.headers, map s.patterns.items, map s.patterns.schemas, map s.patterns.allPatterns, map s.enums.parameters, map s.enums.headers, map s.enums.items, map s.enums.schemas, map s.enums.allEnums
+//@   loop 8: modifies map s.allSchemas, map s.allOfs, map s.references.schemas, map s.references.responses, map s.references.parameters, map s.references.items, map s.references.headerItems, map s.references.parameterItems, map s.references.allRefs, map s.references.pathItems, map s.patterns.parameters, map s.patterns.headers, map s.patterns.items, map s.patterns.schemas, map s.patterns.allPatterns, map s.enums.parameters, map s.enums.headers, map s.enums.items, map s.enums.schemas, map s.enums.allEnums
+//@   loop 9: modifies map s.allSchemas, map s.allOfs, map s.references.schemas, map s.references.responses, map s.references.parameters, map s.references.items, map s.references.headerItems, map s.references.parameterItems, map s.references.allRefs, map s.references.pathItems, map s.patterns.parameters, map s.patterns.headers, map s.patterns.items, map s.patterns.schemas, map s.patterns.allPatterns, map s.enums.parameters, map s.enums.headers, map s.enums.items, map s.enums.schemas, map s.enums.allEnums
+//@   loop 5: invariant opsWF(s) && (forall k string :: old(k in dom(s.patterns.parameters)) ==> k in dom(s.patterns.parameters)) && (forall k string :: old(k in dom(s.patterns.headers)) ==> k in dom(s.patterns.headers)) && (forall k string :: old(k in dom(s.patterns.items)) ==> k in dom(s.patterns.items)) && (forall k string :: old(k in dom(s.patterns.schemas)) ==> k in dom(s.patterns.schemas)) && (forall k string :: old(k in dom(s.patterns.allPatterns)) ==> k in dom(s.patterns.allPatterns))
+//@   loop 5: invariant forall p in seen :: p in dom(docPaths(s))
+//@   loop 5: invariant forall p in seen :: forall i in 0..len(docPaths(s)[p].Parameters) :: docPaths(s)[p].Parameters[i].Pattern != "" ==> ("#" + slashpath.Join("/paths", jsonpointer.Escape(p), "parameters", strconv.Itoa(i))) in dom(s.patterns.parameters) && ("#" + slashpath.Join("/paths", jsonpointer.Escape(p), "parameters", strconv.Itoa(i))) in dom(s.patterns.allPatterns)
+//@   loop 6: invariant (forall k string :: old(k in dom(s.patterns.parameters)) ==> k in dom(s.patterns.parameters)) && (forall k string :: old(k in dom(s.patterns.headers)) ==> k in dom(s.patterns.headers)) && (forall k string :: old(k in dom(s.patterns.items)) ==> k in dom(s.patterns.items)) && (forall k string :: old(k in dom(s.patterns.schemas)) ==> k in dom(s.patterns.schemas)) && (forall k string :: old(k in dom(s.patterns.allPatterns)) ==> k in dom(s.patterns.allPatterns))
+//@   loop 6: invariant forall p in dom(docPaths(s)) :: forall i in 0..len(docPaths(s)[p].Parameters) :: docPaths(s)[p].Parameters[i].Pattern != "" ==> ("#" + slashpath.Join("/paths", jsonpointer.Escape(p), "parameters", strconv.Itoa(i))) in dom(s.patterns.parameters) && ("#" + slashpath.Join("/paths", jsonpointer.Escape(p), "parameters", strconv.Itoa(i))) in dom(s.patterns.allPatterns)
+//@   loop 6: invariant forall n in seen :: s.spec.Parameters[n].Pattern != "" ==> ("#" + slashpath.Join("/parameters", jsonpointer.Escape(n))) in dom(s.patterns.parameters) && ("#" + slashpath.Join("/parameters", jsonpointer.Escape(n))) in dom(s.patterns.allPatterns)
+//@   loop 6: invariant forall n in seen :: forall k string :: forall p string :: itPat(k, p, s.spec.Parameters[n].Items, slashpath.Join("/parameters", jsonpointer.Escape(n)), "items") ==> k in dom(s.patterns.items) && k in dom(s.patterns.allPatterns)
+//@   loop 7: invariant (forall k string :: old(k in dom(s.patterns.parameters)) ==> k in dom(s.patterns.parameters)) && (forall k string :: old(k in dom(s.patterns.headers)) ==> k in dom(s.patterns.headers)) && (forall k string :: old(k in dom(s.patterns.items)) ==> k in dom(s.patterns.items)) && (forall k string :: old(k in dom(s.patterns.schemas)) ==> k in dom(s.patterns.schemas)) && (forall k string :: old(k in dom(s.patterns.allPatterns)) ==> k in dom(s.patterns.allPatterns))
+//@   loop 7: invariant forall p in dom(docPaths(s)) :: forall i in 0..len(docPaths(s)[p].Parameters) :: docPaths(s)[p].Parameters[i].Pattern != "" ==> ("#" + slashpath.Join("/paths", jsonpointer.Escape(p), "parameters", strconv.Itoa(i))) in dom(s.patterns.parameters) && ("#" + slashpath.Join("/paths", jsonpointer.Escape(p), "parameters", strconv.Itoa(i))) in dom(s.patterns.allPatterns)
+//@   loop 7: invariant forall n in dom(s.spec.Parameters) :: s.spec.Parameters[n].Pattern != "" ==> ("#" + slashpath.Join("/parameters", jsonpointer.Escape(n))) in dom(s.patterns.parameters) && ("#" + slashpath.Join("/parameters", jsonpointer.Escape(n))) in dom(s.patterns.allPatterns)
+//@   loop 7: invariant forall n in dom(s.spec.Parameters) :: forall k string :: forall p string :: itPat(k, p, s.spec.Parameters[n].Items, slashpath.Join("/parameters", jsonpointer.Escape(n)), "items") ==> k in dom(s.patterns.items) && k in dom(s.patterns.allPatterns)
+//@   loop 7: invariant forall n in seen7 :: forall h in dom(s.spec.Responses[n].Headers) :: s.spec.Responses[n].Headers[h].Pattern != "" ==> hkey(slashpath.Join("/responses", jsonpointer.Escape(n)), h) in dom(s.patterns.headers) && hkey(slashpath.Join("/responses", jsonpointer.Escape(n)), h) in dom(s.patterns.allPatterns)
+//@   loop 8: invariant (forall k string :: old(k in dom(s.patterns.parameters)) ==> k in dom(s.patterns.parameters)) && (forall k string :: old(k in dom(s.patterns.headers)) ==> k in dom(s.patterns.headers)) && (forall k string :: old(k in dom(s.patterns.items)) ==> k in dom(s.patterns.items)) && (forall k string :: old(k in dom(s.patterns.schemas)) ==> k in dom(s.patterns.schemas)) && (forall k string :: old(k in dom(s.patterns.allPatterns)) ==> k in dom(s.patterns.allPatterns))
+//@   loop 8: invariant forall p in dom(docPaths(s)) :: forall i in 0..len(docPaths(s)[p].Parameters) :: docPaths(s)[p].Parameters[i].Pattern != "" ==> ("#" + slashpath.Join("/paths", jsonpointer.Escape(p), "parameters", strconv.Itoa(i))) in dom(s.patterns.parameters) && ("#" + slashpath.Join("/paths", jsonpointer.Escape(p), "parameters", strconv.Itoa(i))) in dom(s.patterns.allPatterns)
+//@   loop 8: invariant forall n in dom(s.spec.Parameters) :: s.spec.Parameters[n].Pattern != "" ==> ("#" + slashpath.Join("/parameters", jsonpointer.Escape(n))) in dom(s.patterns.parameters) && ("#" + slashpath.Join("/parameters", jsonpointer.Escape(n))) in dom(s.patterns.allPatterns)
+//@   loop 8: invariant forall n in dom(s.spec.Parameters) :: forall k string :: forall p string :: itPat(k, p, s.spec.Parameters[n].Items, slashpath.Join("/parameters", jsonpointer.Escape(n)), "items") ==> k in dom(s.patterns.items) && k in dom(s.patterns.allPatterns)
+//@   loop 8: invariant forall n in seen7 :: n != key7 ==> forall h in dom(s.spec.Responses[n].Headers) :: s.spec.Responses[n].Headers[h].Pattern != "" ==> hkey(slashpath.Join("/responses", jsonpointer.Escape(n)), h) in dom(s.patterns.headers) && hkey(slashpath.Join("/responses", jsonpointer.Escape(n)), h) in dom(s.patterns.allPatterns)
+//@   loop 8: invariant forall h in seen :: response.Headers[h].Pattern != "" ==> hkey(refPref, h) in dom(s.patterns.headers) && hkey(refPref, h) in dom(s.patterns.allPatterns)
+//@   loop 9: invariant (forall k string :: old(k in dom(s.patterns.parameters)) ==> k in dom(s.patterns.parameters)) && (forall k string :: old(k in dom(s.patterns.headers)) ==> k in dom(s.patterns.headers)) && (forall k string :: old(k in dom(s.patterns.items)) ==> k in dom(s.patterns.items)) && (forall k string :: old(k in dom(s.patterns.schemas)) ==> k in dom(s.patterns.schemas)) && (forall k string :: old(k in dom(s.patterns.allPatterns)) ==> k in dom(s.patterns.allPatterns))
+//@   loop 9: invariant forall p in dom(docPaths(s)) :: forall i in 0..len(docPaths(s)[p].Parameters) :: docPaths(s)[p].Parameters[i].Pattern != "" ==> ("#" + slashpath.Join("/paths", jsonpointer.Escape(p), "parameters", strconv.Itoa(i))) in dom(s.patterns.parameters) && ("#" + slashpath.Join("/paths", jsonpointer.Escape(p), "parameters", strconv.Itoa(i))) in dom(s.patterns.allPatterns)
+//@   loop 9: invariant forall n in dom(s.spec.Parameters) :: s.spec.Parameters[n].Pattern != "" ==> ("#" + slashpath.Join("/parameters", jsonpointer.Escape(n))) in dom(s.patterns.parameters) && ("#" + slashpath.Join("/parameters", jsonpointer.Escape(n))) in dom(s.patterns.allPatterns)
+//@   loop 9: invariant forall n in dom(s.spec.Parameters) :: forall k string :: forall p string :: itPat(k, p, s.spec.Parameters[n].Items, slashpath.Join("/parameters", jsonpointer.Escape(n)), "items") ==> k in dom(s.patterns.items) && k in dom(s.patterns.allPatterns)
+//@   loop 9: invariant forall n in dom(s.spec.Responses) :: forall h in dom(s.spec.Responses[n].Headers) :: s.spec.Responses[n].Headers[h].Pattern != "" ==> hkey(slashpath.Join("/responses", jsonpointer.Escape(n)), h) in dom(s.patterns.headers) && hkey(slashpath.Join("/responses", jsonpointer.Escape(n)), h) in dom(s.patterns.allPatterns)
+//@   loop 9: invariant forall n in seen :: s.spec.Definitions[n].Pattern != "" ==> ("#" + path.Join("/definitions", jsonpointer.Escape(n))) in dom(s.patterns.schemas) && ("#" + path.Join("/definitions", jsonpointer.Escape(n))) in dom(s.patterns.allPatterns)
+
+//@ func (s *Spec) analyzeOperation(method, path, op)
+//@   aspect enums
+//@   requires s != nil && idxMaps(s) && opsWF(s)
+//@   modifies map s.operations, heap map[string]*spec.Operation, map s.consumes, map s.produces, map s.authSchemes, map s.allSchemas, map s.allOfs, map s.references.schemas, map s.references.responses, map s.references.parameters, map s.references.items, map s.references.headerItems, map s.references.parameterItems, map s.references.allRefs, map s.references.pathItems, map s.patterns.parameters, map s.patterns.headers, map s.patterns.items, map s.patterns.schemas, map s.patterns.allPatterns, map s.enums.parameters, map s.enums.headers, map s.enums.items, map s.enums.schemas, map s.enums.allEnums
+//@   ensures opsWF(s)
+//@   ensures (forall k string :: old(k in dom(s.enums.parameters)) ==> k in dom(s.enums.parameters)) && (forall k string :: old(k in dom(s.enums.headers)) ==> k in dom(s.enums.headers)) && (forall k string :: old(k in dom(s.enums.items)) ==> k in dom(s.enums.items)) && (forall k string :: old(k in dom(s.enums.schemas)) ==> k in dom(s.enums.schemas)) && (forall k string :: old(k in dom(s.enums.allEnums)) ==> k in dom(s.enums.allEnums))
+//@   ensures op != nil ==> forall i in 0..len(op.Parameters) :: len(op.Parameters[i].Enum) > 0 ==> pkey(slashpath.Join("/paths", jsonpointer.Escape(path), strings.ToLower(method)), i) in dom(s.enums.parameters) && pkey(slashpath.Join("/paths", jsonpointer.Escape(path), strings.ToLower(method)), i) in dom(s.enums.allEnums)
+//@   loop 1: modifies map s.consumes
+//@   loop 2: modifies map s.produces
+//@   loop 3: modifies map s.authSchemes
+//@   loop 4: modifies map s.authSchemes
+//@   loop 5: modifies heap spec.Parameter, map s.allSchemas, map s.allOfs, map s.references.schemas, map s.references.responses, map s.references.parameters, map s.references.items, map s.references.headerItems, map s.references.parameterItems, map s.references.allRefs, map s.patterns.parameters, map s.patterns.headers, map s.patterns.items, map s.patterns.schemas, map s.patterns.allPatterns, map s.enums.parameters, map s.enums.headers, map s.enums.items, map s.enums.schemas, map s.enums.allEnums
+//@   loop 6: modifies heap spec.Response, map s.allSchemas, map s.allOfs, map s.references.schemas, map s.references.responses, map s.references.parameters, map s.references.items, map s.references.headerItems, map s.references.parameterItems, map s.references.allRefs, map s.patterns.parameters, map s.patterns.headers, map s.patterns.items, map s.patterns.schemas, map s.patterns.allPatterns, map s.enums.parameters, map s.enums.headers, map s.enums.items, map s.enums.schemas, map s.enums.allEnums
+//@   loop 5: invariant opsWF(s) && (forall k string :: old(k in dom(s.enums.parameters)) ==> k in dom(s.enums.parameters)) && (forall k string :: old(k in dom(s.enums.headers)) ==> k in dom(s.enums.headers)) && (forall k string :: old(k in dom(s.enums.items)) ==> k in dom(s.enums.items)) && (forall k string :: old(k in dom(s.enums.schemas)) ==> k in dom(s.enums.schemas)) && (forall k string :: old(k in dom(s.enums.allEnums)) ==> k in dom(s.enums.allEnums))
+//@   loop 5: invariant forall j in 0..idx :: len(op.Parameters[j].Enum) > 0 ==> pkey(prefix, j) in dom(s.enums.parameters) && pkey(prefix, j) in dom(s.enums.allEnums)
+//@   loop 6: invariant opsWF(s) && (forall k string :: old(k in dom(s.enums.parameters)) ==> k in dom(s.enums.parameters)) && (forall k string :: old(k in dom(s.enums.headers)) ==> k in dom(s.enums.headers)) && (forall k string :: old(k in dom(s.enums.items)) ==> k in dom(s.enums.items)) && (forall k string :: old(k in dom(s.enums.schemas)) ==> k in dom(s.enums.schemas)) && (forall k string :: old(k in dom(s.enums.allEnums)) ==> k in dom(s.enums.allEnums))
+//@   loop 6: invariant forall j in 0..len(op.Parameters) :: len(op.Parameters[j].Enum) > 0 ==> pkey(prefix, j) in dom(s.enums.parameters) && pkey(prefix, j) in dom(s.enums.allEnums)
+
+// path-level parameters (analyzeOperations); shared parameters, shared response headers and definitions (initialize)
 //@ func (s *Spec) analyzeOperations(path, pi)
 //@   aspect enums
-//@   requires s != nil && pi != nil && idxMaps(s) && (forall mth in dom(s.operations) :: s.operations[mth] != nil)
-//@   modifies heaps INDEX, heap spec.Parameter
-//@   ensures idxMaps(s) && s.spec == old(s.spec) && s.enums.parameters == old(s.enums.parameters) && s.enums.headers == old(s.enums.headers) && s.enums.schemas == old(s.enums.schemas) && s.enums.allEnums == old(s.enums.allEnums)
+//@   requires s != nil && pi != nil && idxMaps(s) && opsWF(s)
+//@   modifies heap spec.Parameter, map s.operations, heap map[string]*spec.Operation, map s.consumes, map s.produces, map s.authSchemes, map s.allSchemas, map s.allOfs, map s.references.schemas, map s.references.responses, map s.references.parameters, map s.references.items, map s.references.headerItems, map s.references.parameterItems, map s.references.allRefs, map s.references.pathItems, map s.patterns.parameters, map s.patterns.headers, map s.patterns.items, map s.patterns.schemas, map s.patterns.allPatterns, map s.enums.parameters, map s.enums.headers, map s.enums.items, map s.enums.schemas, map s.enums.allEnums
+//@   ensures opsWF(s)
+//@   ensures (forall k string :: old(k in dom(s.enums.parameters)) ==> k in dom(s.enums.parameters)) && (forall k string :: old(k in dom(s.enums.headers)) ==> k in dom(s.enums.headers)) && (forall k string :: old(k in dom(s.enums.items)) ==> k in dom(s.enums.items)) && (forall k string :: old(k in dom(s.enums.schemas)) ==> k in dom(s.enums.schemas)) && (forall k string :: old(k in dom(s.enums.allEnums)) ==> k in dom(s.enums.allEnums))
 //@   ensures forall i in 0..len(pi.Parameters) :: len(pi.Parameters[i].Enum) > 0 ==> ("#" + slashpath.Join("/paths", jsonpointer.Escape(path), "parameters", strconv.Itoa(i))) in dom(s.enums.parameters) && ("#" + slashpath.Join("/paths", jsonpointer.Escape(path), "parameters", strconv.Itoa(i))) in dom(s.enums.allEnums)
-//@   loop 1: invariant s != nil && idxMaps(s) && s.spec == old(s.spec) && s.enums.parameters == old(s.enums.parameters) && s.enums.headers == old(s.enums.headers) && s.enums.schemas == old(s.enums.schemas) && s.enums.allEnums == old(s.enums.allEnums)
+//@   loop 1: modifies heap spec.Parameter, map s.allSchemas, map s.allOfs, map s.references.schemas, map s.references.responses, map s.references.parameters, map s.references.items, map s.references.headerItems, map s.references.parameterItems, map s.references.allRefs, map s.patterns.parameters, map s.patterns.headers, map s.patterns.items, map s.patterns.schemas, map s.patterns.allPatterns, map s.enums.parameters, map s.enums.headers, map s.enums.items, map s.enums.schemas, map s.enums.allEnums
+//@   loop 1: invariant opsWF(s) && (forall k string :: old(k in dom(s.enums.parameters)) ==> k in dom(s.enums.parameters)) && (forall k string :: old(k in dom(s.enums.headers)) ==> k in dom(s.enums.headers)) && (forall k string :: old(k in dom(s.enums.items)) ==> k in dom(s.enums.items)) && (forall k string :: old(k in dom(s.enums.schemas)) ==> k in dom(s.enums.schemas)) && (forall k string :: old(k in dom(s.enums.allEnums)) ==> k in dom(s.enums.allEnums))
 //@   loop 1: invariant forall j in 0..idx :: len(op.Parameters[j].Enum) > 0 ==> ("#" + slashpath.Join("/paths", jsonpointer.Escape(path), "parameters", strconv.Itoa(j))) in dom(s.enums.parameters) && ("#" + slashpath.Join("/paths", jsonpointer.Escape(path), "parameters", strconv.Itoa(j))) in dom(s.enums.allEnums)
+
+//@ func (s *Spec) initialize()
+//@   aspect enums
+//@   requires s != nil && s.spec != nil && idxMaps(s) && opsWF(s)
+//@   modifies heap spec.Parameter, heap spec.PathItem, map s.operations, heap map[string]*spec.Operation, map s.consumes, map s.produces, map s.authSchemes, map s.allSchemas, map s.allOfs, map s.references.schemas, map s.references.responses, map s.references.parameters, map s.references.items, map s.references.headerItems, map s.references.parameterItems, map s.references.allRefs, map s.references.pathItems, map s.patterns.parameters, map s.patterns.headers, map s.patterns.items, map s.patterns.schemas, map s.patterns.allPatterns, map s.enums.parameters, map s.enums.headers, map s.enums.items, map s.enums.schemas, map s.enums.allEnums
+//@   ensures forall p in dom(docPaths(s)) :: forall i in 0..len(docPaths(s)[p].Parameters) :: len(docPaths(s)[p].Parameters[i].Enum) > 0 ==> ("#" + slashpath.Join("/paths", jsonpointer.Escape(p), "parameters", strconv.Itoa(i))) in dom(s.enums.parameters) && ("#" + slashpath.Join("/paths", jsonpointer.Escape(p), "parameters", strconv.Itoa(i))) in dom(s.enums.allEnums)
+//@   ensures forall n in dom(s.spec.Parameters) :: len(s.spec.Parameters[n].Enum) > 0 ==> ("#" + slashpath.Join("/parameters", jsonpointer.Escape(n))) in dom(s.enums.parameters) && ("#" + slashpath.Join("/parameters", jsonpointer.Escape(n))) in dom(s.enums.allEnums)
+//@   ensures forall n in dom(s.spec.Parameters) :: forall k string :: forall p []any :: itEnum(k, p, s.spec.Parameters[n].Items, slashpath.Join("/parameters", jsonpointer.Escape(n)), "items") ==> k in dom(s.enums.items) && k in dom(s.enums.allEnums)
+//@   ensures forall n in dom(s.spec.Responses) :: forall h in dom(s.spec.Responses[n].Headers) :: len(s.spec.Responses[n].Headers[h].Enum) > 0 ==> hkey(slashpath.Join("/responses", jsonpointer.Escape(n)), h) in dom(s.enums.headers) && hkey(slashpath.Join("/responses", jsonpointer.Escape(n)), h) in dom(s.enums.allEnums)
+//@   ensures forall n in dom(s.spec.Definitions) :: len(s.spec.Definitions[n].Enum) > 0 ==> ("#" + path.Join("/definitions", jsonpointer.Escape(n))) in dom(s.enums.schemas) && ("#" + path.Join("/definitions", jsonpointer.Escape(n))) in dom(s.enums.allEnums)
+//@   loop 1: modifies map s.consumes
+//@   loop 2: modifies map s.produces
+//@   loop 3: modifies map s.authSchemes
+//@   loop 4: modifies map s.authSchemes
+//@   loop 5: modifies heap spec.Parameter, heap spec.PathItem, map s.operations, heap map[string]*spec.Operation, map s.consumes, map s.produces, map s.authSchemes, map s.allSchemas, map s.allOfs, map s.references.schemas, map s.references.responses, map s.references.parameters, map s.references.items, map s.references.headerItems, map s.references.parameterItems, map s.references.allRefs, map s.references.pathItems, map s.patterns.parameters, map s.patterns.headers, map s.patterns.items, map s.patterns.schemas, map s.patterns.allPatterns, map s.enums.parameters, map s.enums.headers, map s.enums.items, map s.enums.schemas, map s.enums.allEnums
+//@   loop 6: modifies map s.allSchemas, map s.allOfs, map s.references.schemas, map s.references.responses, map s.references.parameters, map s.references.items, map s.references.headerItems, map s.references.parameterItems, map s.references.allRefs, map s.references.pathItems, map s.patterns.parameters, map s.patterns.headers, map s.patterns.items, map s.patterns.schemas, map s.patterns.allPatterns, map s.enums.parameters, map s.enums.headers, map s.enums.items, map s.enums.schemas, map s.enums.allEnums
+//@   loop 7: modifies map s.allSchemas, map s.allOfs, map s.references.schemas, map s.references.responses, map s.references.parameters, map s.references.items, map s.references.headerItems, map s.references.parameterItems, map s.references.allRefs, map s.references.pathItems, map s.patterns.parameters, map s.patterns.headers, map s.patterns.items, map s.patterns.schemas, map s.patterns.allPatterns, map s.enums.parameters, map s.enums.headers, map s.enums.items, map s.enums.schemas, map s.enums.allEnums
+//@   loop 8: modifies map s.allSchemas, map s.allOfs, map s.references.schemas, map s.references.responses, map s.references.parameters, map s.references.items, map s.references.headerItems, map s.references.parameterItems, map s.references.allRefs, map s.references.pathItems, map s.patterns.parameters, map s.patterns.headers, map s.patterns.items, map s.patterns.schemas, map s.patterns.allPatterns, map s.enums.parameters, map s.enums.headers, map s.enums.items, map s.enums.schemas, map s.enums.allEnums
+//@   loop 9: modifies map s.allSchemas, map s.allOfs, map s.references.schemas, map s.references.responses, map s.references.parameters, map s.references.items, map s.references.headerItems, map s.references.parameterItems, map s.references.allRefs, map s.references.pathItems, map s.patterns.parameters, map s.patterns.headers, map s.patterns.items, map s.patterns.schemas, map s.patterns.allPatterns, map s.enums.parameters, map s.enums.headers, map s.enums.items, map s.enums.schemas, map s.enums.allEnums
+//@   loop 5: invariant opsWF(s) && (forall k string :: old(k in dom(s.enums.parameters)) ==> k in dom(s.enums.parameters)) && (forall k string :: old(k in dom(s.enums.headers)) ==> k in dom(s.enums.headers)) && (forall k string :: old(k in dom(s.enums.items)) ==> k in dom(s.enums.items)) && (forall k string :: old(k in dom(s.enums.schemas)) ==> k in dom(s.enums.schemas)) && (forall k string :: old(k in dom(s.enums.allEnums)) ==> k in dom(s.enums.allEnums))
+//@   loop 5: invariant forall p in seen :: p in dom(docPaths(s))
+//@   loop 5: invariant forall p in seen :: forall i in 0..len(docPaths(s)[p].Parameters) :: len(docPaths(s)[p].Parameters[i].Enum) > 0 ==> ("#" + slashpath.Join("/paths", jsonpointer.Escape(p), "parameters", strconv.Itoa(i))) in dom(s.enums.parameters) && ("#" + slashpath.Join("/paths", jsonpointer.Escape(p), "parameters", strconv.Itoa(i))) in dom(s.enums.allEnums)
+//@   loop 6: invariant (forall k string :: old(k in dom(s.enums.parameters)) ==> k in dom(s.enums.parameters)) && (forall k string :: old(k in dom(s.enums.headers)) ==> k in dom(s.enums.headers)) && (forall k string :: old(k in dom(s.enums.items)) ==> k in dom(s.enums.items)) && (forall k string :: old(k in dom(s.enums.schemas)) ==> k in dom(s.enums.schemas)) && (forall k string :: old(k in dom(s.enums.allEnums)) ==> k in dom(s.enums.allEnums))
+//@   loop 6: invariant forall p in dom(docPaths(s)) :: forall i in 0..len(docPaths(s)[p].Parameters) :: len(docPaths(s)[p].Parameters[i].Enum) > 0 ==> ("#" + slashpath.Join("/paths", jsonpointer.Escape(p), "parameters", strconv.Itoa(i))) in dom(s.enums.parameters) && ("#" + slashpath.Join("/paths", jsonpointer.Escape(p), "parameters", strconv.Itoa(i))) in dom(s.enums.allEnums)
+//@   loop 6: invariant forall n in seen :: len(s.spec.Parameters[n].Enum) > 0 ==> ("#" + slashpath.Join("/parameters", jsonpointer.Escape(n))) in dom(s.enums.parameters) && ("#" + slashpath.Join("/parameters", jsonpointer.Escape(n))) in dom(s.enums.allEnums)
+//@   loop 6: invariant forall n in seen :: forall k string :: forall p []any :: itEnum(k, p, s.spec.Parameters[n].Items, slashpath.Join("/parameters", jsonpointer.Escape(n)), "items") ==> k in dom(s.enums.items) && k in dom(s.enums.allEnums)
+//@   loop 7: invariant (forall k string :: old(k in dom(s.enums.parameters)) ==> k in dom(s.enums.parameters)) && (forall k string :: old(k in dom(s.enums.headers)) ==> k in dom(s.enums.headers)) && (forall k string :: old(k in dom(s.enums.items)) ==> k in dom(s.enums.items)) && (forall k string :: old(k in dom(s.enums.schemas)) ==> k in dom(s.enums.schemas)) && (forall k string :: old(k in dom(s.enums.allEnums)) ==> k in dom(s.enums.allEnums))
+//@   loop 7: invariant forall p in dom(docPaths(s)) :: forall i in 0..len(docPaths(s)[p].Parameters) :: len(docPaths(s)[p].Parameters[i].Enum) > 0 ==> ("#" + slashpath.Join("/paths", jsonpointer.Escape(p), "parameters", strconv.Itoa(i))) in dom(s.enums.parameters) && ("#" + slashpath.Join("/paths", jsonpointer.Escape(p), "parameters", strconv.Itoa(i))) in dom(s.enums.allEnums)
+//@   loop 7: invariant forall n in dom(s.spec.Parameters) :: len(s.spec.Parameters[n].Enum) > 0 ==> ("#" + slashpath.Join("/parameters", jsonpointer.Escape(n))) in dom(s.enums.parameters) && ("#" + slashpath.Join("/parameters", jsonpointer.Escape(n))) in dom(s.enums.allEnums)
+//@   loop 7: invariant forall n in dom(s.spec.Parameters) :: forall k string :: forall p []any :: itEnum(k, p, s.spec.Parameters[n].Items, slashpath.Join("/parameters", jsonpointer.Escape(n)), "items") ==> k in dom(s.enums.items) && k in dom(s.enums.allEnums)
+//@   loop 7: invariant forall n in seen7 :: forall h in dom(s.spec.Responses[n].Headers) :: len(s.spec.Responses[n].Headers[h].Enum) > 0 ==> hkey(slashpath.Join("/responses", jsonpointer.Escape(n)), h) in dom(s.enums.headers) && hkey(slashpath.Join("/responses", jsonpointer.Escape(n)), h) in dom(s.enums.allEnums)
+//@   loop 8: invariant (forall k string :: old(k in dom(s.enums.parameters)) ==> k in dom(s.enums.parameters)) && (forall k string :: old(k in dom(s.enums.headers)) ==> k in dom(s.enums.headers)) && (forall k string :: old(k in dom(s.enums.items)) ==> k in dom(s.enums.items)) && (forall k string :: old(k in dom(s.enums.schemas)) ==> k in dom(s.enums.schemas)) && (forall k string :: old(k in dom(s.enums.allEnums)) ==> k in dom(s.enums.allEnums))
+//@   loop 8: invariant forall p in dom(docPaths(s)) :: forall i in 0..len(docPaths(s)[p].Parameters) :: len(docPaths(s)[p].Parameters[i].Enum) > 0 ==> ("#" + slashpath.Join("/paths", jsonpointer.Escape(p), "parameters", strconv.Itoa(i))) in dom(s.enums.parameters) && ("#" + slashpath.Join("/paths", jsonpointer.Escape(p), "parameters", strconv.Itoa(i))) in dom(s.enums.allEnums)
+//@   loop 8: invariant forall n in dom(s.spec.Parameters) :: len(s.spec.Parameters[n].Enum) > 0 ==> ("#" + slashpath.Join("/parameters", jsonpointer.Escape(n))) in dom(s.enums.parameters) && ("#" + slashpath.Join("/parameters", jsonpointer.Escape(n))) in dom(s.enums.allEnums)
+//@   loop 8: invariant forall n in dom(s.spec.Parameters) :: forall k string :: forall p []any :: itEnum(k, p, s.spec.Parameters[n].Items, slashpath.Join("/parameters", jsonpointer.Escape(n)), "items") ==> k in dom(s.enums.items) && k in dom(s.enums.allEnums)
+//@   loop 8: invariant forall n in seen7 :: n != key7 ==> forall h in dom(s.spec.Responses[n].Headers) :: len(s.spec.Responses[n].Headers[h].Enum) > 0 ==> hkey(slashpath.Join("/responses", jsonpointer.Escape(n)), h) in dom(s.enums.headers) && hkey(slashpath.Join("/responses", jsonpointer.Escape(n)), h) in dom(s.enums.allEnums)
+//@   loop 8: invariant forall h in seen :: len(response.Headers[h].Enum) > 0 ==> hkey(refPref, h) in dom(s.enums.headers) && hkey(refPref, h) in dom(s.enums.allEnums)
+//@   loop 9: invariant (forall k string :: old(k in dom(s.enums.parameters)) ==> k in dom(s.enums.parameters)) && (forall k string :: old(k in dom(s.enums.headers)) ==> k in dom(s.enums.headers)) && (forall k string :: old(k in dom(s.enums.items)) ==> k in dom(s.enums.items)) && (forall k string :: old(k in dom(s.enums.schemas)) ==> k in dom(s.enums.schemas)) && (forall k string :: old(k in dom(s.enums.allEnums)) ==> k in dom(s.enums.allEnums))
+//@   loop 9: invariant forall p in dom(docPaths(s)) :: forall i in 0..len(docPaths(s)[p].Parameters) :: len(docPaths(s)[p].Parameters[i].Enum) > 0 ==> ("#" + slashpath.Join("/paths", jsonpointer.Escape(p), "parameters", strconv.Itoa(i))) in dom(s.enums.parameters) && ("#" + slashpath.Join("/paths", jsonpointer.Escape(p), "parameters", strconv.Itoa(i))) in dom(s.enums.allEnums)
+//@   loop 9: invariant forall n in dom(s.spec.Parameters) :: len(s.spec.Parameters[n].Enum) > 0 ==> ("#" + slashpath.Join("/parameters", jsonpointer.Escape(n))) in dom(s.enums.parameters) && ("#" + slashpath.Join("/parameters", jsonpointer.Escape(n))) in dom(s.enums.allEnums)
+//@   loop 9: invariant forall n in dom(s.spec.Parameters) :: forall k string :: forall p []any :: itEnum(k, p, s.spec.Parameters[n].Items, slashpath.Join("/parameters", jsonpointer.Escape(n)), "items") ==> k in dom(s.enums.items) && k in dom(s.enums.allEnums)
+//@   loop 9: invariant forall n in dom(s.spec.Responses) :: forall h in dom(s.spec.Responses[n].Headers) :: len(s.spec.Responses[n].Headers[h].Enum) > 0 ==> hkey(slashpath.Join("/responses", jsonpointer.Escape(n)), h) in dom(s.enums.headers) && hkey(slashpath.Join("/responses", jsonpointer.Escape(n)), h) in dom(s.enums.allEnums)
+//@   loop 9: invariant forall n in seen :: len(s.spec.Definitions[n].Enum) > 0 ==> ("#" + path.Join("/definitions", jsonpointer.Escape(n))) in dom(s.enums.schemas) && ("#" + path.Join("/definitions", jsonpointer.Escape(n))) in dom(s.enums.allEnums)
+
+// END pe-doc
 
 // ---------------------------------------------------------------- analyzer.go: the reference index (C11)
 // generated by /verif/tools/gen_refs_schema.py
